@@ -106,3 +106,81 @@ def instance(seed):
                 rec["comp"][j] = -1
                 rec["msg"] = "composition along the path failed: " + type(ex).__name__
     return rec
+
+
+def _dec(x):
+    x = abs(float(x))
+    return 99 if x == 0 else int(math.floor(-math.log10(x)))
+
+
+def crossing(seed):
+    """The running mass across ONE matching scale with no evolution on either side: evolve() from the
+    matching scale in one scheme to the same scale in the other.  The decoupling relation is stated for the
+    mass, evolve() returns its square: the returned ratio must be zeta_m^2 (zeta_m from the code's own table
+    and the coupling of the upper scheme at the matching scale)."""
+    from eko import msbar_masses
+    from eko.couplings import Couplings
+    from eko.quantities.couplings import CouplingEvolutionMethod, CouplingsInfo
+    from eko.quantities.heavy_quarks import QuarkMassScheme
+
+    rng = random.Random(seed)
+    order = rng.choice([3, 4])
+    q = rng.choice([1, 2, 3])          # the quark whose matching scale is crossed
+    down = rng.random() < 0.5
+    ratios = [1.0, 1.0, 1.0]
+    ratios[q - 1] = rng.choice([1.0, 0.7, 1.6, 2.0])
+    masses2 = [1.51**2, 4.92**2, 172.5**2]
+    info = CouplingsInfo(alphas=0.118, alphaem=0.00781, ref=(91.2, 5))
+    sc = Couplings(info, order=(order, 0), method=rng.choice([CouplingEvolutionMethod.EXACT, CouplingEvolutionMethod.EXPANDED]),
+                   masses=masses2, thresholds_ratios=ratios, hqm_scheme=QuarkMassScheme.MSBAR)
+    wall = (np.array(sc.atlas.walls)[1:-1] * np.array(ratios)).tolist()[q - 1]   # where evolve() places the step
+    lo, hi = q + 2, q + 3
+    m2_in = rng.uniform(1.0, 30.0) ** 2
+    rec = {"ev": "cross", "order": order, "quark": q, "dir": "down" if down else "up", "unit_ratio": ratios[q - 1] == 1.0,
+           "sq": -1, "lin": -1, "exc": ""}
+    try:
+        out = msbar_masses.evolve(m2_in, wall, sc, ratios, 1.0, wall, nf_ref=hi if down else lo, nf_to=lo if down else hi)
+    except Exception as ex:  # noqa: BLE001
+        rec["exc"] = type(ex).__name__
+        return rec
+    a_up = sc.a(wall, hi)[0]
+    tab = msbar_masses.compute_matching_coeffs_down(lo) if down else msbar_masses.compute_matching_coeffs_up(lo)
+    L = math.log(ratios[q - 1])
+    zeta = 1.0 + sum(a_up**p * L**k * tab[p, k] for p in range(1, order) for k in range(p + 1))
+    r = out / m2_in
+    rec["sq"] = _dec((r - zeta**2) / (zeta**2 - 1.0))
+    rec["lin"] = _dec((r - zeta) / (zeta**2 - 1.0))
+    rec["values"] = {"returned_ratio_of_squares": float(r), "zeta_m": float(zeta), "zeta_m_squared": float(zeta**2)}
+    return rec
+
+
+def decoupling_law(nf):
+    """RG law of the logarithms of the mass decoupling table (upwards, m' = zeta m):
+         d zeta / d ln mu^2 = zeta [gamma_m^(nf)(a) - gamma_m^(nf+1)(a')],  a = a' (1 + d1 a' + d2 a'^2),
+         dL/d ln mu^2 = 1 + 2 gamma_m^(nf+1)(a')   (L in terms of the running heavy-quark mass)
+       order a'^2:  dz2/dL = gamma1(nf) - gamma1(nf+1) + gamma0 d1
+       order a'^3:  dz3/dL = -2 gamma0 dz2/dL + 2 beta0' z2 + gamma0 d2 + 2 gamma1(nf) d1 + gamma2(nf) - gamma2(nf+1)
+    with the code's own gamma_m, beta0 and MSBAR coupling decoupling (downwards).  Returns the decades of
+    the relative mismatch per power of L."""
+    from eko import beta, gamma, msbar_masses
+    from eko.couplings import compute_matching_coeffs_down
+
+    P = np.polynomial.polynomial
+    up = msbar_masses.compute_matching_coeffs_up(nf)
+    dn = compute_matching_coeffs_down("MSBAR", nf)
+    g0 = gamma.gamma_qcd_as1()
+    g1, g2 = gamma.gamma_qcd_as2, gamma.gamma_qcd_as3
+    b0p = beta.beta_qcd((2, 0), nf + 1)
+    z2, z3 = np.array(up[2, :3]), np.array(up[3, :4])
+    d1, d2 = np.array(dn[1, :2]), np.array(dn[2, :3])
+    lhs2, rhs2 = P.polyder(z2), P.polyadd([g1(nf) - g1(nf + 1)], g0 * d1)
+    lhs3 = P.polyder(z3)
+    rhs3 = P.polyadd(P.polyadd(-2 * g0 * P.polyder(z2), 2 * b0p * z2),
+                     P.polyadd(P.polyadd(g0 * d2, 2 * g1(nf) * d1), [g2(nf) - g2(nf + 1)]))
+
+    def decs(lhs, rhs, n):
+        lhs, rhs = np.resize(np.append(lhs, [0.0] * n), n), np.resize(np.append(rhs, [0.0] * n), n)
+        return [_dec((lhs[k] - rhs[k]) / max(abs(rhs[k]), 1.0)) for k in range(n)]
+
+    return {"ev": "declaw", "nf": nf, "a2": decs(lhs2, rhs2, 2), "a3": decs(lhs3, rhs3, 3),
+            "lead_zero": bool(np.all(up[1] == 0) and up[0].tolist() == [0.0] * 4)}
